@@ -234,12 +234,14 @@ UNBOUNDED = {
              "waiting: reader.ReadString('\\n') at lookup_protocol_v1.go:41 has no maximum line length"),
     "http-body": ("unbounded-http-body-read",
                   "a POST /topic/create carried a %d-byte body; nsqlookupd buffered all of it (live heap +%d bytes) before looking "
-                  "at the request: io.ReadAll(req.Body) in internal/http_api/req_params.go:21 has no limit"),
+                  "at the request - the finding fixed by /repo 894b9eb (F33: internal/http_api.NewReqParams only calls "
+                  "url.ParseQuery and no longer reads req.Body) is back: some code reads the whole body without a limit again"),
 }
 
 
 def unbounded(ctx, binp):
-    """open known findings unbounded-line-read / unbounded-http-body-read: replayed on every run (corpus/C15/known/)"""
+    """open known finding unbounded-line-read and FIXED finding unbounded-http-body-read (/repo 894b9eb, F33; a
+    reproduction is a VIOLATION): both replayed on every run (corpus/C15/known/)"""
     mib = 32
     for l in e4.read_lines(os.path.join(ROOT, "corpus", "C15", "known", "unbounded_reads.txt")):
         if l.startswith("mib="):
@@ -292,8 +294,9 @@ def run(ctx):
         "unauthenticated operator surface: admin_call_touches_only states which entries each accepted call touches",
         "HTTP paths with non-ASCII bytes / %-escapes are outside the class the router model is tied on (httprouter folds case with "
         "strings.EqualFold); pprof answers written after the client has gone are not exercised",
-        "memory is NOT bounded per peer: open known findings unbounded-line-read / unbounded-http-body-read "
-        "(line_buffer_bounded_false); the liveness leg is a stress test (test evidence), not a proof",
+        "memory is NOT bounded per peer: open known finding unbounded-line-read (TCP; line_buffer_bounded_false is the MODEL "
+        "statement, the live-heap replay the evidence about the daemon); the HTTP sibling unbounded-http-body-read is fixed by "
+        "/repo 894b9eb (F33) and replayed as a fixed finding; the liveness leg is a stress test (test evidence), not a proof",
     ]
     ctx.rule = ("(liveness leg: readers on every read route + TCP peers + admin calls run concurrently, then every route "
                 "and a fresh IDENTIFY+REGISTER must be answered within a deadline) hostile byte streams, each on a fresh TCP connection next to a well-behaved bystander producer: "
